@@ -454,6 +454,62 @@ def run(ctx: Ctx, rs: RuleSet, tier: str):
            f'can_align and _validate_alignment use the same list {vals[0]}',
            '', nontrivial=False)
 
+  # ---- "aligned with nothing" is never confused with "aligned with None"
+  rule_n = 'NULL.alignment-lookup'
+  rs.declare(rule_n, 'the alignment lookups raise for an unaligned value, or '
+             'every identity test on their result is guarded by the '
+             'is-aligned test of the same value', 2)
+  GUARD = {'new_from_old': 'is_old_value_aligned',
+           'old_from_new': 'is_new_value_aligned'}
+  may_none = {}
+  for name in GUARD:
+    lf = ctx.func(f'{D}.DiffAlignment.{name}')
+    rets_ = [r for r in walk_function(lf.node) if isinstance(r, ast.Return)]
+    may_none[name] = (not rets_) or any(
+        r.value is None or (isinstance(r.value, ast.Constant) and
+                            r.value.value is None) or any(
+            isinstance(c, ast.Call) and isinstance(c.func, ast.Attribute) and
+            c.func.attr in ('get', 'pop', 'setdefault') and len(c.args) < 2
+            for c in ast.walk(r.value)) for r in rets_)
+    if not may_none[name]:
+      rs.ok(rule_n, f'{lf.qualname}:total-or-raises',
+            'an unaligned value raises (item lookup), None is never the answer',
+            ctx.loc(lf, lf.node))
+  for h in p.funcs.values():
+    if h.module.name != D or h.is_lambda:
+      continue
+    def visit(e, guards):
+      if isinstance(e, ast.BoolOp) and isinstance(e.op, ast.And):
+        cur = list(guards)
+        for v in e.values:
+          visit(v, cur)
+          if isinstance(v, ast.Call) and isinstance(v.func, ast.Attribute) and v.args:
+            cur.append((v.func.attr, unparse(v.args[0])))
+        return
+      if isinstance(e, ast.Compare) and len(e.ops) == 1 and isinstance(
+          e.ops[0], (ast.Is, ast.IsNot)):
+        for side in (e.left, e.comparators[0]):
+          if isinstance(side, ast.Call) and isinstance(
+              side.func, ast.Attribute) and side.func.attr in GUARD and may_none[
+                  side.func.attr] and side.args:
+            other = e.comparators[0] if side is e.left else e.left
+            if isinstance(other, ast.Constant) and other.value is None:
+              continue  # an explicit None test is the guard itself
+            okg = (GUARD[side.func.attr], unparse(side.args[0])) in guards
+            rs.check(okg, rule_n, f'{h.qualname}:`{unparse(e)[:70]}`',
+                     'guarded by the is-aligned test' if okg else
+                     f'`{unparse(e)[:90]}`: {side.func.attr} answers None for '
+                     'a value aligned with nothing, and the other operand may '
+                     'itself be None (an argument set to None): an unaligned '
+                     'sub-object replaced by None is taken as aligned, no '
+                     'ModifyValue is recorded and apply_diff keeps the old '
+                     'object', ctx.loc(h, e))
+      for c in ast.iter_child_nodes(e):
+        if not isinstance(c, (ast.FunctionDef, ast.AsyncFunctionDef, ast.Lambda)):
+          visit(c, guards)
+    for st in h.node.body:
+      visit(st, [])
+
   # ---- memoizable values are "equal" only if aligned
   rule = 'DOM.aligned-or-equal'
   rs.declare(rule, 'for memoizable values only the alignment decides; '
